@@ -302,8 +302,8 @@ PROPS["C17"] = dict(
                  175: "a declared key that the body uses is not reported by find_params of the shipped IR (the server would drop the argument)", 176: "the IR shipped for a sum of 4..40 parameters does not decode to what lowering produced", 5: "find_params of the shipped IR (implementation) = the model's walk of that IR"},
 )
 PROPS["C18"] = dict(
-    level="proof", runner="C18", needs_tx3c=True, model_files=FRONT_MODEL + ["PlutusData.v", "Serde.v"], proof_files=["Front_proofs.v"], check_files=["Front_check.v"],
-    theorems=["C18_key_order_independent_of_iteration_order", "C18_key_order_sorted", "C18_key_order_total"],
+    level="proof", runner="C18", needs_tx3c=True, model_files=FRONT_MODEL + ["PlutusData.v", "Serde.v"], proof_files=["Front_proofs.v", "Serde_order.v"], check_files=["Front_check.v"],
+    theorems=["C18_key_order_independent_of_iteration_order", "C18_key_order_sorted", "C18_key_order_total", "C18_encoding_independent_of_iteration_order"],
     partial=["determinism of parsing and analysis themselves is observed (20 repetitions in process, 3 fresh processes, 3 TII files), not modelled: the Gallina model is a function by construction, the theorem covers the one place where the code iterates a randomly seeded hash map"],
     trusted_base=FRONT_TB, assumptions=["distinct field names per directive (the IR type is a map)"],
     keep_ids=_only(lambda i: i in (1, 2, 3) or 180 <= i < 190),
